@@ -134,10 +134,131 @@ let has_tiny (t : q list list list) (r : mat) =
 let mk_mdp s a (p : q list list list) (r : q list list) gamma : mdp =
   { nS = nat_of_int s; nA = nat_of_int a; p = p; r = r; gam = gamma }
 
+(* ---------- block groups shared by the fresh-solver cases and the solver-reuse sequences ---------- *)
+(* four ValueIteration answers (Model, SparseModel, UserModel, QueryOnly) for the tables (t, rw) *)
+let judge_vi4 sfx reg (g : gmodel) tiny h tol v0 (r : cursor) =
+  let dense = dense_of_g g in
+  let sparse = sparse_of_g g in
+  let n = nat_of_int h in
+  let bd = read_vi_block r in let bs = read_vi_block r in let bu = read_vi_block r in let bq = read_vi_block r in
+  (* O first, on the implementation's outputs; all four representations against the same MDP
+     (the sparse one against the sparsified MDP when entries are dropped) *)
+  let rd = ref_vi dense v0 in
+  let rsp = if tiny then ref_vi sparse v0 else rd in
+  oracle_vi ("ValueIteration<Model>" ^ sfx) reg dense rd h tol v0 bd;
+  oracle_vi ("ValueIteration<SparseModel>" ^ sfx) reg (if tiny then sparse else dense) rsp h tol v0 bs;
+  oracle_vi ("ValueIteration<UserModel>" ^ sfx) reg dense rd h tol v0 bu;
+  oracle_vi ("ValueIteration<QueryOnly>" ^ sfx) reg dense rd h tol v0 bq;
+  (* repr_independent on the implementation: same answers from all representations *)
+  let sc = scale_of dense bd.v in
+  if not tiny then begin
+    if not (list_eq reg sc bd.v bs.v && list_eq reg sc (flat bd.qf) (flat bs.qf)) then oracle_fail "repr_independent" ("ValueIteration<SparseModel>" ^ sfx) "sparse and dense answers differ"
+  end;
+  if not (list_eq reg sc bd.v bu.v && list_eq reg sc (flat bd.qf) (flat bu.qf)) then oracle_fail "repr_independent" ("ValueIteration<UserModel>" ^ sfx) "user-defined and dense answers differ";
+  if not (list_eq reg sc bd.v bq.v && list_eq reg sc (flat bd.qf) (flat bq.qf)) then oracle_fail "repr_independent" ("ValueIteration<QueryOnly>" ^ sfx) "query-only and dense answers differ";
+  (* C *)
+  corr_vi ("ValueIteration<Model>" ^ sfx) reg sc (vi_run dense n tol v0) bd;
+  corr_vi ("ValueIteration<SparseModel>" ^ sfx) reg sc (vi_run sparse n tol v0) bs;
+  corr_vi ("ValueIteration<UserModel>" ^ sfx) reg sc (vi_run_g g n tol v0) bu;
+  corr_vi ("ValueIteration<QueryOnly>" ^ sfx) reg sc (vi_run_g (g_of_mdp dense) n tol v0) bq
+
+let judge_pe4 sfx reg (g : gmodel) tiny pol h tol v0 (r : cursor) =
+  let dense = dense_of_g g in
+  let sparse = sparse_of_g g in
+  let n = nat_of_int h in
+  let bd = read_pe_block r in let bs = read_pe_block r in let bu = read_pe_block r in let bq = read_pe_block r in
+  let rd = ref_pe dense pol v0 in
+  let rsp = if tiny then ref_pe sparse pol v0 else rd in
+  oracle_pe ("PolicyEvaluation<Model>" ^ sfx) reg dense pol rd h tol v0 bd;
+  oracle_pe ("PolicyEvaluation<SparseModel>" ^ sfx) reg (if tiny then sparse else dense) pol rsp h tol v0 bs;
+  oracle_pe ("PolicyEvaluation<UserModel>" ^ sfx) reg dense pol rd h tol v0 bu;
+  oracle_pe ("PolicyEvaluation<QueryOnly>" ^ sfx) reg dense pol rd h tol v0 bq;
+  let sc = scale_of dense bd.pv in
+  if not (list_eq reg sc bd.pv bu.pv) then oracle_fail "repr_independent" ("PolicyEvaluation<UserModel>" ^ sfx) "user-defined and dense answers differ";
+  corr_pe ("PolicyEvaluation<Model>" ^ sfx) reg sc (pe_run dense pol n tol v0) bd;
+  corr_pe ("PolicyEvaluation<SparseModel>" ^ sfx) reg sc (pe_run sparse pol n tol v0) bs;
+  corr_pe ("PolicyEvaluation<UserModel>" ^ sfx) reg sc (pe_run_g g pol n tol v0) bu;
+  corr_pe ("PolicyEvaluation<QueryOnly>" ^ sfx) reg sc (pe_run_g (g_of_mdp dense) pol n tol v0) bq
+
+(* PolicyIteration (Model, UserModel) with a short tolerance-free evaluation: C only *)
+let judge_pi2 sfx reg (g : gmodel) h tol bps (r : cursor) : int =
+  let m = dense_of_g g in
+  let q1 = read_qtable r in let q2 = read_qtable r in
+  let fuel = nat_of_int 300 in
+  let cmp site mo iq =
+    match mo with
+    | None -> disagree "pi_run.fuel" site "model out of fuel (300 evaluations) while the implementation returned"
+    | Some (iters, mq) ->
+      (* bit-exact only while every intermediate value fits a double: 12 bits + bps per sweep *)
+      let exact = reg = Dy && 12 + int_of_nat iters * h * bps <= 52 in
+      let reg' = if exact then Dy else Ge in
+      let sc = q_add (q_maxabs (flat mq)) (q_maxabs (flat m.r)) in
+      if not (list_eq reg' sc (flat mq) (flat iq)) || List.length mq <> List.length iq then
+        disagree "pi_run.qfunction" site ("impl " ^ str_qs (flat iq) ^ " model " ^ str_qs (flat mq));
+      int_of_nat iters in
+  let i1 = cmp ("PolicyIteration<Model>" ^ sfx) (pi_run m (nat_of_int h) tol fuel) q1 in
+  let _ = cmp ("PolicyIteration<UserModel>" ^ sfx) (pi_run_g g (nat_of_int h) tol fuel) q2 in
+  i1
+
+(* LinearProgramming (Model, UserModel): residual, consistency, LP rows (O); post-processing (C) *)
+let read_lp_block r = let _prec = next_q r in let v = next_qs r in let a = next_nats r in let qf = read_qtable r in (v, a, qf)
+let oracle_lp site (m : mdp) (v, acts, qf) =
+  let sc = scale_of m v in
+  let e_lp = q_mul (q_of_ints 1 100000) (q_add q_one sc) in
+  if not (residual_leb m v e_lp) then
+    oracle_fail "lp_opt_is_fixpoint" site ("Bellman residual of the LP values " ^ string_of_q (dist v (t_op m v)) ^ " exceeds " ^ string_of_q e_lp);
+  if not (check_mdp_solution m v qf acts e_lp e_lp) then
+    oracle_fail "lp_opt_is_fixpoint" site "returned (V,Q,actions) are not consistent";
+  List.iter (fun (coef, rhs) ->
+      if q_lt (q_add (dot coef v) e_lp) rhs then
+        oracle_fail "lp_feasible_iff_superharmonic" site "returned values violate a constraint of the LP") (lp_problem_of_mdp m).lp_rows;
+  e_lp
+let corr_lp site sc ((_, macts), mq) ia iq =
+  if not (list_eq Ge sc (flat mq) (flat iq)) || List.length mq <> List.length iq then
+    disagree "lp_post.qfunction" site ("impl " ^ str_qs (flat iq) ^ " model " ^ str_qs (flat mq));
+  if not (acts_agree Ge sc mq macts ia) then disagree "lp_post.actions" site ("impl " ^ str_nats ia ^ " model " ^ str_nats macts)
+
+let judge_seq reg rs (c : cursor) (r : cursor) : bool * string =
+    (* one solver object of each kind reused over k models and all representations; every answer is
+       judged exactly as a fresh solve of the same MDP *)
+    let k = next_int c in
+    let h = next_int c in
+    let tol = next_q c in
+    let hpi = next_int c in
+    let v0 = next_qs c in
+    let shapes = ref [] in
+    for i = 1 to k do
+      let s = next_int c in let a = next_int c in
+      let gamma = next_q c in
+      let bps = next_int c in
+      let t = read_t3 c s a in let rw = read_t3 c s a in
+      let pol1 = chunks a (List.init (s * a) (fun _ -> next_q c)) in
+      let pol2 = chunks a (List.init (s * a) (fun _ -> next_q c)) in
+      let g = g_of_tables (nat_of_int s) (nat_of_int a) t rw gamma in
+      let m = dense_of_g g in
+      let tiny = has_tiny t m.r in
+      if not (wf_mdpb m) && reg = Dy then failwith "generator produced an ill-formed dyadic MDP";
+      let sfx = "@call" ^ string_of_int i in
+      judge_vi4 sfx reg g tiny h tol v0 r;
+      judge_pe4 sfx reg g tiny pol1 h tol v0 r;
+      judge_pe4 (sfx ^ "b") reg g tiny pol2 h tol v0 r;
+      let _ = judge_pi2 sfx reg g hpi q_zero bps r in
+      let l1 = read_lp_block r in let l2 = read_lp_block r in
+      let _ = oracle_lp ("LinearProgramming<Model>" ^ sfx) m l1 in
+      let _ = oracle_lp ("LinearProgramming<UserModel>" ^ sfx) m l2 in
+      let (v1, a1, qf1) = l1 in let (v2, a2, qf2) = l2 in
+      corr_lp ("LinearProgramming<Model>" ^ sfx) (scale_of m v1) (lp_post m v1) a1 qf1;
+      corr_lp ("LinearProgramming<UserModel>" ^ sfx) (scale_of m v2) (lp_post_g g v2) a2 qf2;
+      shapes := (s, a) :: !shapes
+    done;
+    let same = (match !shapes with x :: rest -> List.exists (fun y -> y = x) rest | [] -> false) in
+    (k > 1 && h > 0, "seq." ^ rs ^ (if same then ".sameshape" else ".othershape"))
+
 let judge _id (c : cursor) (r : cursor) : bool * string =
   let kind = next c in
   let reg = (match next c with "dy" -> Dy | "ge" -> Ge | x -> failwith ("regime " ^ x)) in
   let rs = (match reg with Dy -> "dy" | Ge -> "ge") in
+  if kind = "seq" then judge_seq reg rs c r else
   let s = next_int c in let a = next_int c in
   let gamma = next_q c in
   match kind with
@@ -148,51 +269,17 @@ let judge _id (c : cursor) (r : cursor) : bool * string =
     let v0 = next_qs c in
     let g = g_of_tables (nat_of_int s) (nat_of_int a) t rw gamma in
     let dense = dense_of_g g in
-    let sparse = sparse_of_g g in
     let tiny = has_tiny t dense.r in
     if not (wf_mdpb dense) && reg = Dy then failwith "generator produced an ill-formed dyadic MDP";
-    let n = nat_of_int h in
     let uset = use_tolerance tol in
     let nontrivial = h > 0 && s > 1 in
     let tag = kind ^ "." ^ rs ^ (if uset then ".tol" else ".exact") ^ (if tiny then ".tiny" else "") in
     if kind = "vi" then begin
-      let bd = read_vi_block r in let bs = read_vi_block r in let bu = read_vi_block r in let bq = read_vi_block r in
-      (* O first, on the implementation's outputs; all four representations against the same MDP
-         (the sparse one against the sparsified MDP when entries are dropped) *)
-      let rd = ref_vi dense v0 in
-      let rsp = if tiny then ref_vi sparse v0 else rd in
-      oracle_vi "ValueIteration<Model>" reg dense rd h tol v0 bd;
-      oracle_vi "ValueIteration<SparseModel>" reg (if tiny then sparse else dense) rsp h tol v0 bs;
-      oracle_vi "ValueIteration<UserModel>" reg dense rd h tol v0 bu;
-      oracle_vi "ValueIteration<QueryOnly>" reg dense rd h tol v0 bq;
-      (* repr_independent on the implementation: same answers from all representations *)
-      let sc = scale_of dense bd.v in
-      if not tiny then begin
-        if not (list_eq reg sc bd.v bs.v && list_eq reg sc (flat bd.qf) (flat bs.qf)) then oracle_fail "repr_independent" "ValueIteration<SparseModel>" "sparse and dense answers differ"
-      end;
-      if not (list_eq reg sc bd.v bu.v && list_eq reg sc (flat bd.qf) (flat bu.qf)) then oracle_fail "repr_independent" "ValueIteration<UserModel>" "user-defined and dense answers differ";
-      if not (list_eq reg sc bd.v bq.v && list_eq reg sc (flat bd.qf) (flat bq.qf)) then oracle_fail "repr_independent" "ValueIteration<QueryOnly>" "query-only and dense answers differ";
-      (* C *)
-      corr_vi "ValueIteration<Model>" reg sc (vi_run dense n tol v0) bd;
-      corr_vi "ValueIteration<SparseModel>" reg sc (vi_run sparse n tol v0) bs;
-      corr_vi "ValueIteration<UserModel>" reg sc (vi_run_g g n tol v0) bu;
-      corr_vi "ValueIteration<QueryOnly>" reg sc (vi_run_g (g_of_mdp dense) n tol v0) bq;
+      judge_vi4 "" reg g tiny h tol v0 r;
       (nontrivial, tag)
     end else begin
       let pol = chunks a (List.init (s * a) (fun _ -> next_q c)) in
-      let bd = read_pe_block r in let bs = read_pe_block r in let bu = read_pe_block r in let bq = read_pe_block r in
-      let rd = ref_pe dense pol v0 in
-      let rsp = if tiny then ref_pe sparse pol v0 else rd in
-      oracle_pe "PolicyEvaluation<Model>" reg dense pol rd h tol v0 bd;
-      oracle_pe "PolicyEvaluation<SparseModel>" reg (if tiny then sparse else dense) pol rsp h tol v0 bs;
-      oracle_pe "PolicyEvaluation<UserModel>" reg dense pol rd h tol v0 bu;
-      oracle_pe "PolicyEvaluation<QueryOnly>" reg dense pol rd h tol v0 bq;
-      let sc = scale_of dense bd.pv in
-      if not (list_eq reg sc bd.pv bu.pv) then oracle_fail "repr_independent" "PolicyEvaluation<UserModel>" "user-defined and dense answers differ";
-      corr_pe "PolicyEvaluation<Model>" reg sc (pe_run dense pol n tol v0) bd;
-      corr_pe "PolicyEvaluation<SparseModel>" reg sc (pe_run sparse pol n tol v0) bs;
-      corr_pe "PolicyEvaluation<UserModel>" reg sc (pe_run_g g pol n tol v0) bu;
-      corr_pe "PolicyEvaluation<QueryOnly>" reg sc (pe_run_g (g_of_mdp dense) pol n tol v0) bq;
+      judge_pe4 "" reg g tiny pol h tol v0 r;
       (nontrivial, tag)
     end
   | "solve" ->
@@ -203,10 +290,8 @@ let judge _id (c : cursor) (r : cursor) : bool * string =
     let m = dense_of_g g in
     let bvi = read_vi_block r in
     let qpi = read_qtable r in
-    let _prec = next_q r in
-    let lpv = next_qs r in let lpa = next_nats r in let lpq = read_qtable r in
-    let _prec2 = next_q r in
-    let lpv2 = next_qs r in let lpa2 = next_nats r in let lpq2 = read_qtable r in
+    let (lpv, lpa, lpq) = read_lp_block r in
+    let (lpv2, lpa2, lpq2) = read_lp_block r in
     let qpi2 = read_qtable r in
     let sc = scale_of m bvi.v in
     let sl = slack Ge sc in
@@ -214,23 +299,14 @@ let judge _id (c : cursor) (r : cursor) : bool * string =
     oracle_vi "ValueIteration<Model>" Ge m (ref_vi m []) h tol [] bvi;
     if q_lt tol bvi.var then oracle_fail "vi_residual" "ValueIteration<Model>" "did not converge within the horizon given by the generator";
     let e_vi = q_add (q_mul m.gam bvi.var) sl in
-    (* LP: lp_solve is accurate to about 1e-6 relative *)
-    let e_lp = q_mul (q_of_ints 1 100000) (q_add q_one sc) in
-    let chk_lp site v acts qf =
-      if not (residual_leb m v e_lp) then
-        oracle_fail "lp_opt_is_fixpoint" site ("Bellman residual of the LP values " ^ string_of_q (dist v (t_op m v)) ^ " exceeds " ^ string_of_q e_lp);
-      if not (check_mdp_solution m v qf acts e_lp e_lp) then
-        oracle_fail "lp_opt_is_fixpoint" site "returned (V,Q,actions) are not consistent";
+    (* LP: lp_solve is accurate to about 1e-6 relative; residual, consistency and the LP rows
+       re-evaluated exactly on the implementation's values, then the cross-check with VI *)
+    let chk_lp site (v, acts, qf) =
+      let e_lp = oracle_lp site m (v, acts, qf) in
       if not (check_cross m bvi.v v e_vi e_lp) then
         oracle_fail "approx_fixpoints_close" site "VI and LP values further apart than (e1+e2)/(1-gamma)" in
-    chk_lp "LinearProgramming<Model>" lpv lpa lpq;
-    chk_lp "LinearProgramming<UserModel>" lpv2 lpa2 lpq2;
-    (* the LP itself, in exact arithmetic on the implementation's values: every row of
-       lp_problem_of_mdp is satisfied up to e_lp (lp_feasible_iff_superharmonic) *)
-    let lpp = lp_problem_of_mdp m in
-    List.iter (fun (coef, rhs) ->
-        if q_lt (q_add (dot coef lpv) e_lp) rhs then
-          oracle_fail "lp_feasible_iff_superharmonic" "LinearProgramming<Model>" "returned values violate a constraint of the LP") lpp.lp_rows;
+    chk_lp "LinearProgramming<Model>" (lpv, lpa, lpq);
+    chk_lp "LinearProgramming<UserModel>" (lpv2, lpa2, lpq2);
     (* PI: V := row maxima of the returned Q, actions := first maximisers *)
     let chk_pi site qf =
       let v = List.map maxl qf in
@@ -246,12 +322,8 @@ let judge _id (c : cursor) (r : cursor) : bool * string =
     chk_pi "PolicyIteration<Model>" qpi;
     chk_pi "PolicyIteration<UserModel>" qpi2;
     (* C: post-processing of the LP values (Q-table and greedy actions) against the model *)
-    let corr_lp site ((_, macts), mq) ia iq =
-      if not (list_eq Ge sc (flat mq) (flat iq)) || List.length mq <> List.length iq then
-        disagree "lp_post.qfunction" site ("impl " ^ str_qs (flat iq) ^ " model " ^ str_qs (flat mq));
-      if not (acts_agree Ge sc mq macts ia) then disagree "lp_post.actions" site ("impl " ^ str_nats ia ^ " model " ^ str_nats macts) in
-    corr_lp "LinearProgramming<Model>" (lp_post m lpv) lpa lpq;
-    corr_lp "LinearProgramming<UserModel>" (lp_post_g g lpv2) lpa2 lpq2;
+    corr_lp "LinearProgramming<Model>" sc (lp_post m lpv) lpa lpq;
+    corr_lp "LinearProgramming<UserModel>" sc (lp_post_g g lpv2) lpa2 lpq2;
     (s > 1 && a > 1, "solve")
   | "via" ->
     (* start ValueFunction with a wrong-size action vector: the answer must not depend on it *)
@@ -275,22 +347,7 @@ let judge _id (c : cursor) (r : cursor) : bool * string =
     let bps = next_int c in
     let t = read_t3 c s a in let rw = read_t3 c s a in
     let g = g_of_tables (nat_of_int s) (nat_of_int a) t rw gamma in
-    let m = dense_of_g g in
-    let q1 = read_qtable r in let q2 = read_qtable r in
-    let fuel = nat_of_int 300 in
-    let cmp site mo iq =
-      match mo with
-      | None -> disagree "pi_run.fuel" site "model out of fuel (300 evaluations) while the implementation returned"
-      | Some (iters, mq) ->
-        (* bit-exact only while every intermediate value fits a double: 12 bits + bps per sweep *)
-        let exact = reg = Dy && 12 + int_of_nat iters * h * bps <= 52 in
-        let reg' = if exact then Dy else Ge in
-        let sc = q_add (q_maxabs (flat mq)) (q_maxabs (flat m.r)) in
-        if not (list_eq reg' sc (flat mq) (flat iq)) || List.length mq <> List.length iq then
-          disagree "pi_run.qfunction" site ("impl " ^ str_qs (flat iq) ^ " model " ^ str_qs (flat mq));
-        int_of_nat iters in
-    let i1 = cmp "PolicyIteration<Model>" (pi_run m (nat_of_int h) tol fuel) q1 in
-    let _ = cmp "PolicyIteration<UserModel>" (pi_run_g g (nat_of_int h) tol fuel) q2 in
+    let i1 = judge_pi2 "" reg g h tol bps r in
     (i1 > 1 && s > 1, "pi." ^ rs)
   | "learn" ->
     let h = next_int c in
